@@ -27,10 +27,17 @@ type RouteItem struct {
 	WaitReady   bool   `json:"waitReady,omitempty"` // (grpc kinds) the dialler's first call waits for the connection (gRPC keeps reconnecting)
 	// HoldAtPickupMs (mux): the Accept is held this long between taking the parked connection and
 	// acknowledging it (hook point mux.accept.gotConn)
-	HoldAtPickupMs int  `json:"holdAtPickupMs,omitempty"`
-	Redial         bool `json:"redial"`
-	AtExpiry       bool `json:"atExpiry"` // (redial) issued about 5 s after the previous dial to this listener: the moment the broker expires that dial's bookkeeping
-	SkewUs         int  `json:"skewUs"`   // offset from that instant, microseconds (may be negative) // (grpcmux) no new accept: dial the still-open listener of (accepting side, id) again
+	HoldAtPickupMs int `json:"holdAtPickupMs,omitempty"`
+	// Raw (grpc kinds): the id is accepted with a plain Accept and served by the harness's own server, so that
+	// the listener can be closed at a chosen moment. Reaccept: the still-open raw listener of (accepting
+	// side, id) is closed and the id accepted again at once (new answer), then dialled.
+	Raw      bool `json:"raw,omitempty"`
+	Reaccept bool `json:"reaccept,omitempty"`
+	// DoubleClose (reaccept): the old listener is closed a second time after the id was accepted again
+	DoubleClose bool `json:"doubleClose,omitempty"`
+	Redial      bool `json:"redial"`
+	AtExpiry    bool `json:"atExpiry"` // (redial) issued about 5 s after the previous dial to this listener: the moment the broker expires that dial's bookkeeping
+	SkewUs      int  `json:"skewUs"`   // offset from that instant, microseconds (may be negative) // (grpcmux) no new accept: dial the still-open listener of (accepting side, id) again
 }
 
 // RouteObs: what one end of one id observed.
